@@ -2,6 +2,7 @@
    the real handler performed with the answer it got, and its response.  [replay_step] runs the model
    in lock-step against the recorded effects. *)
 From AS Require Import Base.Str Http.Cookie Url.Escape Oidc.Types Oidc.Prog Oidc.Handler Corr.Common.
+From AS Require Export Oidc.Spec.
 
 Record step := { s_now : Z; s_req : request; s_trace : list (eff * ans); s_resp : outcome }.
 Record hist := { h_cfg : cfg; h_db : list (string * idtok); h_steps : list step }.
@@ -60,7 +61,6 @@ Definition answer_ok (a : ans) : bool :=
   end.
 Definition all_answers_ok (tr : list (eff * ans)) : bool := forallb (fun ea => answer_ok (snd ea)) tr.
 
-Definition is_allow (o : outcome) : bool := match o with OAllow _ => true | _ => false end.
 
 (* ghost session table rebuilt from the PERFORMED effects: what is bound to each id *)
 Inductive gsess := GSTokens (t : tokens) | GSUnknown.   (* GSUnknown: a write/remove was reported failed *)
